@@ -716,6 +716,12 @@ def P_norm(x, *a, **k):
     s2 = Rat.lift((x * x).sum())
     if s2.is_const() and s2.constval() in (0, 1):
         return Rat.lift(s2.constval())
+    if FIELD['on']:
+        nz = [Rat.lift(v) for v in x.ravel() if not Rat.lift(v).is_zero()]
+        if len(nz) == 1:
+            # |(c, 0, .., 0)| = |c|; the branch sqrt(c^2) = c is taken (a global sign of a quaternion /
+            # direction is immaterial for every quantity compared: rotations are quadratic in q)
+            return nz[0]
     return uf('sqrt', s2)
 class AtProxy:
     def __init__(self, arr): self.arr = arr
@@ -1081,7 +1087,7 @@ class Interp:
                     if isinstance(op, ast.Div):
                         return fl / fr if fr != 0 else float('inf')
                     return {ast.Add: fl + fr, ast.Sub: fl - fr, ast.Mult: fl * fr}[type(op)]
-            return {ast.Add: lambda: l + r, ast.Sub: lambda: l - r, ast.Mult: lambda: l * r, ast.Div: lambda: l / r, ast.FloorDiv: lambda: l // r, ast.Mod: lambda: l % r, ast.Pow: lambda: l ** r}[type(op)]()
+            return {ast.Add: lambda: l + r, ast.Sub: lambda: l - r, ast.Mult: lambda: l * r, ast.Div: lambda: l / r, ast.FloorDiv: lambda: l // r, ast.Mod: lambda: l % r, ast.Pow: lambda: l ** r, ast.BitAnd: lambda: l & r, ast.BitOr: lambda: l | r, ast.BitXor: lambda: l ^ r, ast.LShift: lambda: l << r, ast.RShift: lambda: l >> r}[type(op)]()
         if isinstance(l, (list, tuple)):
             l = asarr(l)
         if isinstance(r, (list, tuple)):
